@@ -286,21 +286,37 @@ func checkCell(c *core.Ctx, s site, cl cell, fn *core.Fn, b tt.Body, x *tt.X, sp
 		// predicate answered false for the helper's parameter: the helper stands for the predicate
 		indirect := false
 		for _, call := range core.Calls(b.Root, info, func(*ast.CallExpr, types.Object) bool { return true }) {
-			h := c.FnOf(core.CalleeFunc(info, call))
-			if h == nil || h.Decl.Body == nil || !strings.HasPrefix(h.Obj.Pkg().Path(), core.Module) {
+			// the callee: a function/method of the module, or a closure bound once to a local
+			var params *ast.FieldList
+			var results *ast.FieldList
+			var hbody *ast.BlockStmt
+			var hg *cfgq.Graph
+			var hobj types.Object
+			samePkg := false
+			if h := c.FnOf(core.CalleeFunc(info, call)); h != nil && h.Decl.Body != nil && strings.HasPrefix(h.Obj.Pkg().Path(), core.Module) {
+				params, results, hbody, hg, hobj, samePkg = h.Decl.Type.Params, h.Decl.Type.Results, h.Decl.Body, cfgq.Of(c.Program, h), h.Obj, h.Pkg.TypesInfo == info
+			} else if id, ok := ast.Unparen(call.Fun).(*ast.Ident); ok {
+				if d, ok := tt.SingleDef(info, fn.Decl.Body, id); ok && d.Rhs != nil && d.Index == -1 {
+					if lit, ok := ast.Unparen(d.Rhs).(*ast.FuncLit); ok {
+						params, results, hbody, hg, hobj, samePkg = lit.Type.Params, lit.Type.Results, lit.Body, cfgq.OfLit(c.Program, info, lit), core.ObjOf(info, id), true
+					}
+				}
+			}
+			if hbody == nil {
 				continue
 			}
-			inner := core.CallsAll(h.Decl.Body, h.Pkg.TypesInfo, func(_ *ast.CallExpr, callee types.Object) bool { return callee == types.Object(pf.Obj) })
+			hinfo := hg.Info
+			inner := core.CallsAll(hbody, hinfo, func(_ *ast.CallExpr, callee types.Object) bool { return callee == types.Object(pf.Obj) })
 			if len(inner) == 0 {
 				continue
 			}
 			indirect = true
-			if j, ok := proxyFor(c, h, pf.Obj, inner); ok && !cl.tracked && h.Pkg.TypesInfo == info && j < len(call.Args) && root != nil && tt.MentionsResolved(info, b.Root, call.Args[j], root, 2) {
+			if j, ok := proxyFor(c, hinfo, params, results, hbody, hg, pf.Obj, inner); ok && !cl.tracked && samePkg && !call.Ellipsis.IsValid() && j < len(call.Args) && root != nil && tt.MentionsResolved(info, b.Root, call.Args[j], root, 2) {
 				mine = append(mine, call)
 				subjArg[call] = call.Args[j]
-				predObj = h.Obj
+				predObj = hobj
 				for _, in := range inner {
-					viaExprs = append(viaExprs, closure(info, h.Decl.Body, in.Args[0], 2)...)
+					viaExprs = append(viaExprs, closure(info, hbody, in.Args[0], 2)...)
 				}
 			}
 		}
@@ -532,16 +548,14 @@ func checkCell(c *core.Ctx, s site, cl cell, fn *core.Fn, b tt.Body, x *tt.X, sp
 	}
 }
 
-// proxyFor decides whether the boolean helper h stands for the predicate pred: on every path on
-// which h answers false the predicate was evaluated on (a value derived from) one parameter of h and
-// answered false. It returns the index of that parameter.
-func proxyFor(c *core.Ctx, h *core.Fn, pred *types.Func, inner []*ast.CallExpr) (int, bool) {
-	info := h.Pkg.TypesInfo
-	sig := h.Obj.Type().(*types.Signature)
-	if sig.Results().Len() != 1 || sig.Variadic() {
+// proxyFor decides whether a boolean helper (function, method or closure) stands for the predicate
+// pred: on every path on which it answers false the predicate was evaluated on (a value derived
+// from) one of its parameters and answered false. It returns the index of that parameter.
+func proxyFor(c *core.Ctx, info *types.Info, params, results *ast.FieldList, body *ast.BlockStmt, g *cfgq.Graph, pred *types.Func, inner []*ast.CallExpr) (int, bool) {
+	if results == nil || len(results.List) != 1 || len(results.List[0].Names) > 1 {
 		return 0, false
 	}
-	if bt, ok := sig.Results().At(0).Type().Underlying().(*types.Basic); !ok || bt.Kind() != types.Bool {
+	if bt, ok := info.TypeOf(results.List[0].Type).Underlying().(*types.Basic); !ok || bt.Kind() != types.Bool {
 		return 0, false
 	}
 	// the parameter the predicate's argument is computed from
@@ -551,9 +565,12 @@ func proxyFor(c *core.Ctx, h *core.Fn, pred *types.Func, inner []*ast.CallExpr) 
 			return 0, false
 		}
 		k := 0
-		for _, fl := range h.Decl.Type.Params.List {
+		for _, fl := range params.List {
+			if _, variadic := fl.Type.(*ast.Ellipsis); variadic {
+				return 0, false
+			}
 			for _, n := range fl.Names {
-				if tt.MentionsResolved(info, h.Decl.Body, in.Args[0], info.Defs[n], 2) {
+				if tt.MentionsResolved(info, body, in.Args[0], info.Defs[n], 2) {
 					if param != -1 && param != k {
 						return 0, false
 					}
@@ -566,7 +583,7 @@ func proxyFor(c *core.Ctx, h *core.Fn, pred *types.Func, inner []*ast.CallExpr) 
 	if param < 0 {
 		return 0, false
 	}
-	hx := tt.New(cfgq.Of(c.Program, h))
+	hx := tt.New(g)
 	traces, err := hx.Traces(hx.G.CFG.Blocks[0], 0, nil, 200)
 	if err != nil {
 		return 0, false
